@@ -282,7 +282,7 @@ PROPERTY = dict(
                 grouping='<=3 NLA fragments with site / cell / UMI / strand from pools (2 sites, 2 cells, 3 UMIs at distance 1 or 3), hamming 0/1, both pooling methods',
                 across_contigs='2..4 sorted reads of one cell / UMI / coordinates on up to 3 contigs, ejection interval none/1/2, both pooling methods, plain Fragment+Molecule and NlaIII classes', cap='2..4 fragments of two UMIs at one site in any arrival order, cap 1..2, both pooling methods', tags='molecule of 1..4 fragments with arbitrary initial duplicate flags, max-fragments cap 1..4 or none, write_tags twice'),
     outside=['sequencing-error / soft-clip realism of a simulator (the solver ranges over all geometries instead)', 'allele-split molecules', 'paired-end R2 ends (single R1 fragments are used)',
-             'transitivity chains longer than 3 fragments', 'ScarTraceFragment / FeatureCounts fragments (own __eq__)'],
+             'transitivity chains longer than 3 fragments', 'ScarTraceFragment / FeatureCounts fragments (own __eq__)', 'plain Fragment equality being start-OR-end based (documented in its doctest)', 'site drift of CHICMolecule with assignment_radius > 0'],
     assumptions=['UMI distance is the package\'s documented one (N matches anything; sequtils.hamming_distance)', 'FakeRead models pysam.AlignedSegment',
                  'CHIC site offset 2 for trimmed layouts (C09)'],
     trusted=['stubs/fakeread.py', 'spec/c06.py', 'spec/c09.py read geometry'],
